@@ -52,13 +52,14 @@ def run_item(item, tier):
 
 def coverage(total, tier):
     return std_coverage(total, {
-        'T': f'{len(tt.t_atoms())} try-body atoms (16 base atoms, each also under preempt / if / three loop shapes); all bodies of '
+        'T': f'{len(tt.t_atoms())} try-body atoms (17 base atoms, each also under preempt / if / three loop shapes); all bodies of '
              'length<=2' + (' plus length 3 over 19 atoms' if tier == 'thorough' else ' with at least one non-nesting atom') + ' x {undo, stop}; 3 further handler bodies '
              '(return, nested try, you-call) on ' + ('single atoms and all base pairs' if tier == 'thorough' else 'single atoms') + '; x in 0,1,2',
         'H': '20 try blocks (10 bodies x undo/stop): all ordered pairs in three shapes (straight line, loop run 3 times, you-function '
-             'called twice) and ' + ('all triples' if tier == 'thorough' else 'triples over 6 blocks') + '; x in 0,1,2',
+             'called twice) and ' + ('all triples' if tier == 'thorough' else 'triples over 6 blocks') + '; pairs preceded by calls of another you-function with its own '
+             'try/stop and of the function itself (' + ('all' if tier == 'thorough' else '20 x 6') + '); x in 0,1,2',
         'Q': f'{len(tt.Q_LEFT)} left x {len(tt.Q_RIGHT)} right operands x {len(tt.Q_POS)} use positions '
-             + ('(all)' if tier == 'thorough' else '(every 2nd, all for assignments to globals)') + f' + {len(tt.Q_OTHER)} bool/byte shapes; x in 0,1,3',
+             + ('(all)' if tier == 'thorough' else '(every 2nd, all for assignments to globals)') + f' + {len(tt.Q_OTHER)} bool/byte/constant-left-with-faulting-right shapes; x in 0,1,3',
         'R': f'{len(tt.R_SHAPES)} shapes of value-returning you-functions returning from inside a try x {len(tt.R_PRE)} prefixes x {len(tt.R_EXPR)} return '
              'expressions (calls of value-returning defeat functions that may defeat) x undo/stop x 3 handler bodies' + ('' if tier == 'thorough' else ' (every 2nd + all plain calls)') + '; x in 0,1,2',
         'P': f'{len(tt.P_FUNCS)} preemptive defeat functions x {len(tt.P_AFTER)} continuations x undo/stop, checked (W 2,4) and unchecked twins',
